@@ -1,0 +1,6 @@
+//go:build !verif
+
+package concurrent
+
+// verifHook is a no-op unless built with the verif tag (see verif_on.go).
+func verifHook(site string, obj any) {}
